@@ -60,7 +60,16 @@ const maxOutcomes = 200000
 const maxViolationsPerClass = 2
 const maxSamples = 3
 
-func (c *Ctx) Eval()                  { c.res.Evaluations++ }
+// EvalHook, if set, runs every 1024th evaluation of a unit (the sequential worker collects
+// garbage there, and nowhere else: see cmd/seqw).
+var EvalHook func()
+
+func (c *Ctx) Eval() {
+	c.res.Evaluations++
+	if EvalHook != nil && c.res.Evaluations&1023 == 0 {
+		EvalHook()
+	}
+}
 func (c *Ctx) AddEval(n int64)        { c.res.Evaluations += n }
 func (c *Ctx) AddStates(n int64)      { c.res.States += n }
 func (c *Ctx) AddTransitions(n int64) { c.res.Transitions += n }
@@ -224,6 +233,7 @@ func (c *Ctx) finish(start time.Time) *Result {
 //	worker list   -prop C03 -tier quick
 //	worker run    -prop C03 -tier quick -unit <id> -seed N -budget 60s -out file
 //	worker replay -prop C03 -part <name> -file replay.json
+//
 // DebugHook, when set, runs instead of the normal command line (development aid).
 var DebugHook func()
 
